@@ -42,3 +42,115 @@ def parse_goals(cx):
         return z3.And(h['goals'].kind == 'seq' and h['goals'].t.eq(goals.t), h['invariants'].t.eq(inv.t))
     cx.invariant(0, lambda st: z3.BoolVal(bool(frame(st))) if isinstance(frame(st), bool) else frame(st))
     cx.ensures(lambda st, r: frame(st))
+
+
+FC = 'cli/common.py'
+EXACT = z3.Function('solution_is_exact', R, B)        # the flag get_moment returns for a monomial
+MOM = z3.Function('moment_of', R, R)
+
+
+@contract(FC, 'get_moment_poly', ['C17', 'C11'])
+def get_moment_poly(cx):
+    """the moment of a polynomial is flagged exact only if the moment of EVERY monomial of its expansion is exact (one rounded closed form makes
+    the whole result inexact); every monomial is solved through get_moment"""
+    TS, mk, (acc_c, acc_m) = tuple_sort([DR, DR])
+    monoms = cx.seq('monoms', DTuple(DR, DR)); poly = cx.real('poly')
+    cx.param(poly=poly, solvers=cx.ref('solvers'), rec_builder=cx.ref('rec_builder'), cli_args=cx.ref('cli_args'), program=cx.ref('program'))
+    cx.call('get_monoms', lambda ex, st, r, a, kw: monoms, trusted='get_monoms(expanded polynomial): its (coefficient, monomial) pairs')
+    cx.call('get_moment', lambda ex, st, r, a, kw: VTuple(VR(MOM(toreal(a[0]))), VB(EXACT(toreal(a[0])))), trusted='get_moment (contract below)')
+    cx.call('subs', lambda ex, st, r, a, kw: VR(z3.Real('substituted_polynomial')))
+    cx.set_hook('empty_kinds', {'moments': V('map', (z3.K(R, z3.RealVal(0)), z3.K(R, z3.BoolVal(False))), kk=DR, vk=DR, size=None)})
+    j = z3.Int('j')
+    allexact = lambda upto: z3.ForAll([j], z3.Implies(z3.And(0 <= j, j < upto), EXACT(acc_m(monoms.t[j]))))
+    cx.invariant(0, lambda st: st['is_exact_acc'].t == allexact(st['$i0'].t))
+    cx.ensures(lambda st, r: r.t[1].t == allexact(z3.Length(monoms.t)))
+
+
+@contract(FC, 'get_all_moments', ['C17', 'C11'])
+def get_all_moments(cx):
+    """raw moments 1..k of a monomial: moment i is the solution for monom**i, and the collection is flagged exact only if every one of them is"""
+    mono = cx.real('monom'); k = cx.int('max_moment')
+    cx.param(monom=mono, max_moment=k, solvers=cx.ref('solvers'), rec_builder=cx.ref('rec_builder'), cli_args=cx.ref('cli_args'), program=cx.ref('program'))
+    cx.requires(k.t >= 0)
+    PW = z3.Function('power_monomial', R, I, R)
+    cx.set_hook('binop', lambda ex, st, op, a, b: VR(PW(toreal(a), toint(b))) if op == 'Pow' else None)
+    cx.call('get_moment', lambda ex, st, r, a, kw: VTuple(VR(MOM(toreal(a[0]))), VB(EXACT(toreal(a[0])))), trusted='get_moment (contract below)')
+    cx.set_hook('empty_kinds', {'moments': V('map', (z3.K(I, z3.RealVal(0)), z3.K(I, z3.BoolVal(False))), kk=DI, vk=DR, size=None)})
+    j = z3.Int('j')
+
+    def inv(st):       # reversed(range(1, k+1)): after g rounds the orders k, k-1, ..., k-g+1 are done
+        g = st['$i0'].t; arr, dom = st['moments'].t
+        done = lambda q: z3.And(k.t - g < q, q <= k.t)
+        return z3.And(st['all_exact'].t == z3.ForAll([j], z3.Implies(done(j), EXACT(PW(mono.t, j)))),
+                      z3.ForAll([j], z3.Implies(done(j), z3.And(z3.Select(dom, j), z3.Select(arr, j) == MOM(PW(mono.t, j))))))
+    cx.invariant(0, inv)
+
+    def post(st, r):
+        arr, dom = r.t[0].t
+        return z3.And(r.t[1].t == z3.ForAll([j], z3.Implies(z3.And(1 <= j, j <= k.t), EXACT(PW(mono.t, j)))),
+                      z3.ForAll([j], z3.Implies(z3.And(1 <= j, j <= k.t), z3.And(z3.Select(dom, j), z3.Select(arr, j) == MOM(PW(mono.t, j))))))
+    cx.ensures(post)
+
+
+@contract(FC, 'get_moment', ['C20', 'C01'])
+def get_moment_c(cx):
+    """the closed form of a monomial comes from a solver that was built for a recurrence system CONTAINING that monomial: a cached solver is used
+    only under the monomial's own key, and a new system's solver is registered under every monomial of that system (never under others)."""
+    mono = cx.real('monom'); solvers = cx.map('solvers', DR, DRef('RecurrenceSolver'))
+    SYS = z3.Function('system_of_solver', REF, REF); INSYS = z3.Function('monomial_in_system', REF, R, B)
+    cx.param(monom=mono, solvers=solvers, rec_builder=cx.ref('rec_builder'), cli_args=cx.obj('Namespace', solvability_check=cx.bool('solvability_check')), program=cx.ref('program'))
+    arr, dom = solvers.t
+    mq = z3.Real('mq')
+    # the cache invariant on entry: every cached solver was built for a system that contains its key
+    cx.requires(z3.ForAll([mq], z3.Implies(z3.Select(dom, mq), INSYS(SYS(z3.Select(arr, mq)), mq))))
+    cx.call('is_solvable', lambda ex, st, r, a, kw: VB(ex.fresh(B, 'solvable')))
+    recs = z3.Const('new_system', REF); mons = cx.seq('monomials_of_new_system', DR)
+    j = z3.Int('j')
+
+    def get_recurrences(ex, st, r, a, kw):
+        # RecBuilder.get_recurrences contract: the system has an equation for the goal monomial (closedness), and its monomial list is that of the system
+        st.pc += [z3.ForAll([j], z3.Implies(z3.And(0 <= j, j < z3.Length(mons.t)), INSYS(recs, mons.t[j]))),
+                  z3.Exists([j], z3.And(0 <= j, j < z3.Length(mons.t), mons.t[j] == toreal(a[0])))]
+        return V('ref', recs)
+    cx.call('get_recurrences', get_recurrences, trusted='RecBuilder.get_recurrences contract (contracts/rec_builder.py): closed system containing the goal monomial')
+    cx.field('monomials', lambda ex, st, o: mons)
+    new_solver = z3.Const('new_solver', REF)
+
+    def solver(ex, st, r, a, kw):
+        st.pc.append(SYS(new_solver) == a[0].t); return V('ref', new_solver)
+    cx.call('RecurrenceSolver', solver)
+    cx.call('sympify', lambda ex, st, r, a, kw: a[0])
+
+    def update(ex, st, r, a, kw):
+        d = a[0]
+        if r.kind != 'map' or d.kind != 'dictcomp': raise OutOfReach('update')
+        node = d.x['node']; src = d.x['src']
+        if src.kind != 'seq' or not isinstance(node.generators[0].target, ast.Name): raise OutOfReach('update with another comprehension')
+        # keys and values of the comprehension at an arbitrary position
+        jj = ex.fresh(I, 'pos')
+        cst = d.x['st'].fork(); cst.vars[node.generators[0].target.id] = src.x['ek'].wrap(src.t[jj])
+        save = ex.dry; ex.dry += 1
+        try: kv, vv = ex.ev(node.key, cst), ex.ev(node.value, cst)
+        finally: ex.dry = save
+        arr0, dom0 = r.t
+        arr1 = ex.fresh(arr0.sort(), 'solvers_arr'); dom1 = ex.fresh(dom0.sort(), 'solvers_dom')
+        inset = lambda x: z3.Exists([jj], z3.And(0 <= jj, jj < z3.Length(src.t), toreal(kv) == x))
+        st.pc += [z3.ForAll([mq], z3.Select(dom1, mq) == z3.Or(z3.Select(dom0, mq), inset(mq))),
+                  z3.ForAll([mq], z3.Implies(z3.And(z3.Select(dom0, mq), z3.Not(inset(mq))), z3.Select(arr1, mq) == z3.Select(arr0, mq))),
+                  z3.ForAll([jj], z3.Implies(z3.And(0 <= jj, jj < z3.Length(src.t)), z3.Select(arr1, toreal(kv)) == vv.t))]
+        st.vars['solvers'] = V('map', (arr1, dom1), kk=DR, vk=DRef(), size=None)
+        return VNone()
+    import ast
+    cx.call('update', update, trusted='dict.update(mapping)')
+
+    def get_solution(ex, st, r, a, kw):
+        m = st['solvers']; a1, d1 = m.t
+        ex.need(st, z3.And(z3.Select(d1, toreal(a[0])), INSYS(SYS(z3.Select(a1, toreal(a[0]))), toreal(a[0]))), 'solution.from-a-solver-of-a-system-containing-the-monomial@0', 'ensures')
+        return VTuple(VR(MOM(toreal(a[0]))), VB(EXACT(toreal(a[0]))))
+    cx.call('get_solution', get_solution, trusted='RecBuilder.get_solution(monom, solvers): solvers[monom].get(monom)')
+
+    def post(st, r):
+        a1, d1 = st['solvers'].t
+        return z3.ForAll([mq], z3.Implies(z3.Select(d1, mq), INSYS(SYS(z3.Select(a1, mq)), mq)))        # the cache invariant is re-established
+    cx.ensures(post)
+    cx.raises(lambda st, e: z3.BoolVal(True))
